@@ -1,0 +1,21 @@
+//go:build verif
+
+// Contracts checked by /verif/gowp. This file contains comments only and is compiled only
+// with -tags verif.
+
+package v1
+
+// C12: LatestRevision answers with the highest revision number among the revisions the
+// composition controls (and nil exactly when it controls none with a positive number).
+
+//@ macro CTRL(r, owner) = metav1.GetControllerOf(r) != nil && metav1.GetControllerOf(r).UID == owner.GetUID()
+
+//@ func v1.LatestRevision
+//@ props C12
+//@ frame fresh-only
+//@ loop range revs
+//@   invariant [C12:latest-is-max-so-far] 0 <= latest.Spec.Revision && forall j :: 0 <= j && j < done && CTRL(&revs[j], c) ==> revs[j].Spec.Revision <= latest.Spec.Revision
+//@   invariant [C12:latest-is-attained] latest.Spec.Revision == 0 || (exists j :: 0 <= j && j < done && CTRL(&revs[j], c) && revs[j].Spec.Revision == latest.Spec.Revision)
+//@ ensures [C12:nil-iff-none-controlled] (result == nil) <==> !(exists j :: 0 <= j && j < len(revs) && CTRL(&revs[j], c) && revs[j].Spec.Revision > 0)
+//@ ensures [C12:result-is-highest-controlled] result != nil ==> forall j :: 0 <= j && j < len(revs) && CTRL(&revs[j], c) ==> revs[j].Spec.Revision <= result.Spec.Revision
+//@ ensures [C12:result-number-is-attained] result != nil ==> (exists j :: 0 <= j && j < len(revs) && CTRL(&revs[j], c) && revs[j].Spec.Revision == result.Spec.Revision)
